@@ -238,6 +238,20 @@ class Frontend:
         if len(s.targets) != 1:
             raise Unsupported(f"chained assignment at line {s.lineno}")
         t = s.targets[0]
+        if isinstance(t, ast.Name) and isinstance(s.value, ast.ListComp):
+            # name = [elt for x in it]   ==>   name = []; for x in it: name.append(elt)      (one generator, no conditions)
+            lc = s.value
+            if len(lc.generators) != 1 or lc.generators[0].ifs or lc.generators[0].is_async:
+                raise Unsupported(f"list comprehension shape at line {s.lineno}")
+            gen = lc.generators[0]
+            init = ast.Assign(targets=[ast.Name(id=t.id, ctx=ast.Store())], value=ast.List(elts=[], ctx=ast.Load()), lineno=s.lineno, col_offset=0)
+            app = ast.Expr(value=ast.Call(func=ast.Attribute(value=ast.Name(id=t.id, ctx=ast.Load()), attr="append", ctx=ast.Load()),
+                                          args=[lc.elt], keywords=[]), lineno=s.lineno, col_offset=0)
+            loop = ast.For(target=gen.target, iter=gen.iter, body=[app], orelse=[], lineno=s.lineno, col_offset=0)
+            for n_ in (init, loop):
+                ast.fix_missing_locations(n_)
+            self.notes.append(f"line {s.lineno}: list comprehension desugared into a loop with append")
+            return self.block([init, loop], ctx, k)
         if isinstance(t, ast.Name):
             return self.expr_to(s.value, ctx, ("name", t.id), k, line=s.lineno)
         if isinstance(t, ast.Tuple) and all(isinstance(e, ast.Name) for e in t.elts):
